@@ -373,6 +373,9 @@ func (e *Ev) evGhostCall(x *ast.CallExpr) Val {
 			return VBool{sEq(a.T, "0")}
 		case VNil:
 			return VBool{"true"}
+		case VSub:
+			// the address of a by-value field of an object: nil exactly when the object is
+			return VBool{sEq(a.Ref, "0")}
 		}
 		e.unsupp(x, "isnil of %T", arg(0))
 	case "tag":
@@ -688,6 +691,8 @@ func (e *Ev) flattenArg(v Val, ts, sorts *[]string, n ast.Node) {
 		}
 	case VNil:
 		*ts, *sorts = append(*ts, "0"), append(*sorts, sortInt)
+	case VSub:
+		*ts, *sorts = append(*ts, a.Ref), append(*sorts, sortInt)
 	default:
 		e.unsupp(n, "naming function argument of kind %T", v)
 	}
